@@ -181,11 +181,22 @@ def check_pairs(ctx, cache, pairs, stream):
         if o == n and idiff:
             ctx.property_failure({"old": src(o), "new": src(n)}, {"identical signatures reported": idiff})
         if broken and not idiff:
-            fid = "C10-F2" if f2 else "C10-F4" if f4 else "C10-F5" if f5 else "C10-F6" if f6 else "C10-F7" if f7 else None
+            # a known finding only when the faithful model of the unchanged code is silent too AND a gap predicate holds
+            fid = None if mdiff else ("C10-F2" if f2 else "C10-F4" if f4 else "C10-F5" if f5 else "C10-F6" if f6 else "C10-F7" if f7 else None)
             call = sorted(broken)[0]
             ctx.property_failure({"old": src(o), "new": src(n), "call": f"f({', '.join([str(i) for i in range(call[0])] + [k + '=0' for k in call[1]])})"},
                                  {"reported": idiff, "broken_calls": len(broken)}, finding=fid)
             ctx.observe("unreported", fid or "UNEXPLAINED")
+        # the three always-reported changes, evaluated on the implementation
+        rep = {(k, NAMES[pi]) for k, pi in idiff if pi >= 0}
+        for nm in set(p[0] for p in o) & set(p[0] for p in n):
+            (oi, (_, okd, od_)), (ni, (_, nkd, nd_)) = [(i, p) for i, p in enumerate(o) if p[0] == nm][0], [(i, p) for i, p in enumerate(n) if p[0] == nm][0]
+            if okd in ("PO", "PK") and nkd in ("PO", "PK") and oi != ni and ("moved", nm) not in rep:
+                ctx.property_failure({"old": src(o), "new": src(n)}, {"moved positional parameter not reported": nm, "reported": idiff})
+            if okd not in ("VP", "VK") and nkd not in ("VP", "VK") and od_ and nd_ and od_ != nd_ and ("default", nm) not in rep:
+                ctx.property_failure({"old": src(o), "new": src(n)}, {"changed default not reported": nm, "reported": idiff})
+            if (od_ or okd in ("VP", "VK")) and not nd_ and nkd not in ("VP", "VK") and ("required", nm) not in rep:
+                ctx.property_failure({"old": src(o), "new": src(n)}, {"optional parameter made required not reported": nm, "reported": idiff})
         # soundness of reports: each names a parameter that differs
         od = {p[0]: (i, p) for i, p in enumerate(o)}
         nd = {p[0]: (i, p) for i, p in enumerate(n)}
